@@ -135,25 +135,14 @@ theorem C07_within_alg (c : AlgCon) (x : Pt) (ea er : Rat) (hea : 0 ≤ ea)
             rw [Rat.max_def]; split <;> grind
           grind
 
-/-- integrality as the code tests it (relative tolerance `INFINITY`): a fractional value is reported only if it
-rounds to 0. -/
-theorem C07_within_int (x it : Rat) (nm : String) :
-    (⟨intViol x, it, none, nm⟩ : Cand).violated = false ↔ (rabs (x - cround x) ≤ it ∨ cround x ≠ 0) := by
+/-- **C07_integrality** (full strength, since /repo 1797720): an integer variable's value is not reported iff it is
+within `sol:chk:inttol` of the nearest integer -/
+theorem C07_integrality (x it : Rat) (nm : String) (hit : 0 ≤ it) :
+    (⟨intViol x, it, some 0, nm⟩ : Cand).violated = false ↔ rabs (x - cround x) ≤ it := by
   unfold Cand.violated intViol
-  have h := check_fin_none (rabs (x - cround x)) (cround x : Rat) it
-  cases hb : ((⟨.fin (rabs (x - cround x)), (cround x : Rat)⟩ : Violation).check it none).1 with
-  | true =>
-    have ⟨h1, h2⟩ := h.mp hb
-    have h2' : cround x = 0 := by exact_mod_cast h2
-    simp only [Bool.true_eq_false, false_iff]; grind
-  | false =>
-    simp only [true_iff]
-    by_cases h1 : it < rabs (x - cround x)
-    · right; intro h0
-      have : ((⟨.fin (rabs (x - cround x)), (cround x : Rat)⟩ : Violation).check it none).1 = true :=
-        h.mpr ⟨h1, by simp [h0]⟩
-      simp [hb] at this
-    · left; grind
+  simp only [within_fin_some _ _ _ _ hit]
+  have := rabs_nonneg ((cround x : Int) : Rat)
+  grind
 
 /-- functional constraint `res = f(args)` checked on the solver's values, by context:
 positive context tests `res − f ≤ ε`, negative `f − res ≤ ε`, mixed `|res − f| ≤ ε` (relative to `res`). -/
@@ -310,65 +299,65 @@ theorem C07_within_func_ideal (res : Nat) (ctx : Ctx) (f : Func) (e : Env) (ea e
     ((funcViol res ctx f e).check ea (some er)).1 = false ↔
       (rabs (e.x res - e.raw res) + e.boundsViolPos res ≤ ea ∨
        (e.x res ≠ 0 ∧ rabs (e.x res - e.raw res) + e.boundsViolPos res ≤ er * rabs (e.x res))) := by
-  unfold funcViol
+  unfold funcViol recompViol
   simp only [hr, Bool.not_true, Bool.false_eq_true, if_false]
   exact within_fin_some _ _ _ _ hea
 
-/-! ## 7. where the real code (and therefore the model) falls short of the property
+/-- conditional constraint on recomputed values (since /repo ca505ad): same tested quantity -/
+theorem C07_within_cond_ideal (res : Nat) (ctx : Ctx) (c : AlgCon) (e : Env) (ea er : Rat) (hea : 0 ≤ ea)
+    (hr : e.recomp = true) :
+    ((condViol res ctx c e).check ea (some er)).1 = false ↔
+      (rabs (e.x res - e.raw res) + e.boundsViolPos res ≤ ea ∨
+       (e.x res ≠ 0 ∧ rabs (e.x res - e.raw res) + e.boundsViolPos res ≤ er * rabs (e.x res))) := by
+  unfold condViol recompViol
+  simp only [hr, if_true]
+  exact within_fin_some _ _ _ _ hea
 
-### 7a. integrality is only reported when the value rounds to 0
+/-- **C07_ideal_cond_bounds** (full strength): if the idealistic pass does not report a conditional constraint, the
+recomputed result variable respects its bounds within tolerance — so a logical constraint encoded by fixing that
+result (`not (x >= 5)`: bounds [0,0]) cannot be violated unnoticed -/
+theorem C07_ideal_cond_bounds (res : Nat) (ctx : Ctx) (c : AlgCon) (e : Env) (ea er : Rat) (hea : 0 ≤ ea)
+    (hr : e.recomp = true) (h : ((condViol res ctx c e).check ea (some er)).1 = false) :
+    e.boundsViolPos res ≤ ea ∨ (e.x res ≠ 0 ∧ e.boundsViolPos res ≤ er * rabs (e.x res)) := by
+  have := (C07_within_cond_ideal res ctx c e ea er hea hr).mp h
+  have h0 := rabs_nonneg (e.x res - e.raw res)
+  grind
 
-`CheckVars` passes `epsrel = INFINITY` to `Violation::Check`, whose relative clause is a conjunct whenever the
-reference value `round(x)` is non-zero.  The full-strength statement
+/-! ## 7. where the real code fell / falls short of the property
 
-    theorem C07_integrality (x it : Rat) (nm : String) :
-        (⟨intViol x, it, none, nm⟩ : Cand).violated = false → rabs (x - cround x) ≤ it
+### 7a, 7b (history — both fixed in /repo, the model follows the fixed code)
 
-is FALSE for the code as it exists (`C07_counterexample_integrality`); what holds is the `_partial` variant. -/
-
-theorem C07_integrality_partial (x it : Rat) (nm : String) (h0 : cround x = 0) :
-    (⟨intViol x, it, none, nm⟩ : Cand).violated = false ↔ rabs (x - cround x) ≤ it := by
-  rw [C07_within_int]; simp [h0]
+* 7a *integrality was only reported when the value rounds to 0* (`CheckVars` passed `epsrel = INFINITY`): fixed by
+  /repo 1797720; the full-strength statement is now `C07_integrality` above.  The former theorems
+  `C07_integrality_partial`, `C07_counterexample_integrality` (k ∈ [0,10] integer at 5/2, all mode bits: no report)
+  and `C07_integrality_reported_near_zero` were about the old code and are gone; the same input is now a positive
+  example (`C07_integrality_example`).
+* 7b *conditional constraints ignored the bounds of their recomputed result in the idealistic pass*: fixed by /repo
+  ca505ad; full strength: `C07_within_cond_ideal`, `C07_ideal_cond_bounds`.  The former
+  `C07_counterexample_cond_ideal` (`not (x >= 5)` at x = 7, mode 96: no report) is now `C07_cond_ideal_example`. -/
 
 def cexIntModel : Model := ⟨[⟨some 0, some 10, true, true, "k", none⟩], [], []⟩
 def cexOpts (mode : Nat) : Opts := ⟨mode, 1/1000000, 1/1000000, 1/100000, none, none, false, false⟩
 
-/-- integer variable `k ∈ [0,10]` at `5/2`: every mode bit on, default tolerances — no report, return value true,
-and no code 150 under `sol:chk:fail` -/
-theorem C07_counterexample_integrality :
-    (checkSolution cexIntModel (cexOpts 1023) [5/2] [] false).hasReport = false ∧
-    rabs ((5/2 : Rat) - cround (5/2)) > (cexOpts 1023).inttol ∧
-    solveCodeOverride { cexOpts 1023 with fail := true } (checkSolution cexIntModel (cexOpts 1023) [5/2] [] false) = none := by
+/-- integer variable `k ∈ [0,10]` at `5/2` and at `1/4`: reported (bit 1), code 150 under `sol:chk:fail`; at 3: not -/
+theorem C07_integrality_example :
+    (checkSolution cexIntModel (cexOpts 1) [5/2] [] false).hasReport = true ∧
+    (checkSolution cexIntModel (cexOpts 1) [1/4] [] false).hasReport = true ∧
+    solveCodeOverride { cexOpts 1 with fail := true } (checkSolution cexIntModel (cexOpts 1) [5/2] [] false) = some 150 ∧
+    (checkSolution cexIntModel (cexOpts 1023) [3] [] false).hasReport = false := by
   decide +kernel
-
-/-- the same variable at `1/4` (rounds to 0) *is* reported -/
-theorem C07_integrality_reported_near_zero :
-    (checkSolution cexIntModel (cexOpts 1023) [1/4] [] false).hasReport = true := by
-  decide +kernel
-
-/-! ### 7b. conditional constraints on recomputed values ignore the bounds of their result variable
-
-`ConditionalConstraint` has its own `ComputeViolation`, used in both passes; unlike the generic one it has no
-`recomp_vals()` branch, so in the idealistic pass neither `|recomputed − solver's|` nor the bound violation of the
-recomputed result is tested, and auxiliary variables' bounds are not tested in that pass either.  A logical constraint
-encoded by fixing the result of a conditional (e.g. `not (x >= 5)`: result variable with bounds [0,0]) is therefore
-never reported by the idealistic pass.  Full-strength statement (FALSE on the code as it exists):
-
-    theorem C07_ideal_cond_bounds : idealistic pass with bits 32+64 has no report →
-        every recomputed result variable of a selected conditional constraint is within its bounds
-
-Proved instead: the statement for generic functional constraints (`C07_within_func_ideal`) and the counterexample. -/
 
 def cexCondModel : Model :=
   ⟨[⟨some 0, some 10, false, true, "x", none⟩, ⟨some 0, some 0, true, false, "r", some (0, 0)⟩],
    [⟨"_condlinge", true, [⟨.cond 1 .neg ⟨⟨[(1, 0)], [], 0⟩, .ge, some 5, none⟩, 0, true, false, "c"⟩]⟩], []⟩
 
-/-- `x = 7`, solver's `r = 0`: the model `not (x >= 5)` is violated; the recomputed `r` is 1, outside its bounds [0,0];
-the idealistic pass (bits 32+64) reports nothing, while the realistic pass (bits 1+2) on the same point does. -/
-theorem C07_counterexample_cond_ideal :
+/-- `not (x >= 5)` (result `r` fixed to 0): at `x = 7` the recomputed `r` is 1 and both the idealistic pass (bits
+32+64) and the realistic pass (bits 1+2) report; at `x = 3` neither does -/
+theorem C07_cond_ideal_example :
     (recompute cexCondModel (cexOpts 96) [7, 0]).getD 1 0 = 1 ∧
-    (checkSolution cexCondModel (cexOpts 96) [7, 0] [] false).hasReport = false ∧
-    (checkSolution cexCondModel (cexOpts 3) [7, 0] [] false).hasReport = true := by
+    (checkSolution cexCondModel (cexOpts 96) [7, 0] [] false).hasReport = true ∧
+    (checkSolution cexCondModel (cexOpts 3) [7, 0] [] false).hasReport = true ∧
+    (checkSolution cexCondModel (cexOpts 99) [3, 0] [] false).hasReport = false := by
   decide +kernel
 
 /-! ### 7c. false alarm: a checkable constraint reading an orphaned result variable
